@@ -31,6 +31,33 @@ STARTUP_NOTE = ("Start-up is modelled as a labelled transition system (lean/Asph
                 "documented discipline and demand completion where the discipline completes. ")
 
 CLAIMS = {
+    "C08": (
+        "Theorems over every run of the service-task LTS (lean/AsphaltModel/Tasks.lean: the owner's teardown stack of "
+        "callbacks and finalizers, task life cycles, the host's silent moves): C08_before_earlier (a callback registered "
+        "before a task was started runs only after the task and its context have finished), C08_none_left, "
+        "C08_cancel_only_when_told, C08_action_once, C08_action_called, C08_snapshot, C08_crash_surfaces, C08_outcome_exact, "
+        "C08_stack_suffix. Correspondence (mode T): generated set-up programs (0-4 service tasks x 0-6 callbacks, all three "
+        "teardown actions, tasks ending by themselves / needing clean-up / crashing, root and nested owners, tasks started "
+        "while another context is current) run on the real asphalt under a virtual clock on both back-ends; the observed "
+        "trace must be a run of the model.",
+        "Hypothesis kept explicit: the teardown is not itself cancelled (no task crashed); after a crash only 'the exception "
+        "reaches the caller' is required (C08_crash_surfaces). Delivery of cancellation and TaskGroup.start are anyio's. "
+        "Task and callback ids are distinct (DistinctIds, true of every generated program).",
+        "8/C08",
+    ),
+    "C09": (
+        "Theorems over every run of the task-factory LTS (lean/AsphaltModel/Factory.lean): C09_handles (live handles = "
+        "spawned and not finished, at every point), C09_observed, C09_parent, C09_cancel_local, C09_cancel_only_requested "
+        "(teardown never cancels), C09_wait, C09_teardown_waits, C09_handler_once, C09_handler_verdict, C09_no_handler, "
+        "C09_outcome. Correspondence (mode T): timed scripts of start_task / start_task_soon from the owner, a nested "
+        "context, another service task and other background tasks, cancel / wait_finished / all_task_handles() sampled at "
+        "x.5 ticks, handler absent / truthy / falsy, on both back-ends under a virtual clock; the observed trace must be a "
+        "run of the model.",
+        "BaseExceptions escaping a task bypass the handler (by design, not judged). After an exception took the application "
+        "down nothing more is required of the remaining tasks. The factory's own context is identified as the common parent "
+        "of the task contexts whose parent is the owner.",
+        "8/C09",
+    ),
     "C15": (
         "Theorems C15_exit_zero, C15_exit_code, C15_exit_invalid, C15_exit_startup, C15_exit_crash (the documented exit for "
         "every ending, as a decision table over lean/AsphaltModel/Runner.lean) and C15_teardown, C15_teardown_once, "
